@@ -6,7 +6,7 @@ from lib import facts, mir
 repo = "/repo"
 if "--repo" in sys.argv:
     repo = sys.argv[sys.argv.index("--repo") + 1]
-F = mir.Facts(facts.load(repo, "default")) if hasattr(mir, "Facts") else None
+F = mir.Facts(facts.load(repo, "debug")) if hasattr(mir, "Facts") else None
 pat = sys.argv[1]
 for name, b in F.bodies.items():
     if pat in name:
